@@ -617,8 +617,7 @@ func genLabels(r *verifx.Rng) []int {
 	default:
 		return []int{0}
 	}
-	// the same tag more than once: repeated, or by another of its names (canonical id <i>; the legacy alias key<i> is
-	// resolved differently by the engine-side hash and by the storage query unless the custom name is listed too)
+	// the same tag more than once: repeated, or by another of its names (canonical id <i>, legacy alias key<i>)
 	if r.Chance(1, 3) {
 		n := r.Range(1, 2)
 		for x := 0; x < n; x++ {
@@ -632,15 +631,13 @@ func genLabels(r *verifx.Rng) []int {
 			default:
 				add = 20 + l%10
 			}
-			if l >= 20 && add < 20 && add >= 10 {
-				add = l // key<i> only next to the custom name
-			}
 			at := r.Intn(len(ls) + 1)
 			ls = append(ls[:at], append([]int{add}, ls[at:]...)...)
 		}
-	} else if r.Chance(1, 8) {
+	} else if r.Chance(1, 5) {
+		form := 10 * r.Range(1, 2) // every label by its legacy alias key<i> alone, or by its canonical id alone
 		for i := range ls {
-			ls[i] = 20 + ls[i]%10 // canonical ids only
+			ls[i] = form + ls[i]%10
 		}
 	}
 	return ls
@@ -732,7 +729,15 @@ func genSel(r *verifx.Rng, lod int64, depth int) *expr {
 
 var binOps = []string{"add", "sub", "mul", "mul", "div", "eq", "gt", "lt", "ge", "le"}
 
-func genMatch(r *verifx.Rng) (string, []int) {
+func genMatch(r *verifx.Rng) (m string, ls []int) {
+	defer func() {
+		if r.Chance(1, 5) {
+			form := 10 * r.Range(1, 2)
+			for i := range ls {
+				ls[i] = form + ls[i]%10
+			}
+		}
+	}()
 	switch r.Pick(5, 3, 2) {
 	case 1:
 		ls := []int{r.Range(1, 3)}
